@@ -4,6 +4,8 @@ from __future__ import annotations
 
 import ast
 import re
+import tokenize
+from collections import Counter
 
 from hypothesis import strategies as st
 
@@ -70,6 +72,22 @@ def strategy(tier):
     return strat()
 
 
+def enumerate_cases(tier, shard, nshards, seed):
+    """Histories on the trivia-dense programs with warm caches: a line comment put (longer / shorter / none) on each statement, then every enclosing
+    statement (and the statement itself) is cut and put back, or replaced by its own copy / own source."""
+
+    thin = 2 if tier == 'quick' else 1
+
+    for case in em.ancestor_two_step_grid(gen.TRIVIA_PROGRAMS + gen.SYN_PROGRAMS[:12], tier, shard, nshards, seed, thin=thin):
+        s1, s2 = case['steps']
+
+        if s1.get('lc_field') or s2['op'] == 'remove':
+            continue
+
+        for how in (('cutput',) if s2['op'] == 'cut' else ('copy', 'own_src')):
+            yield {'kind': 'history', 'src': case['src'], 'tsel': s1['tsel'], 'text': s1['text'], 'asel': s2['tsel'], 'how': how, 'enumerated': True}
+
+
 def parse_or_skip(src):
     try:
         return ast.parse(src)
@@ -103,7 +121,79 @@ def execute(case, ctx):
 
     rich = False
 
+    if kind == 'history':
+        em.warm_caches(root)
+        nodes = em.node_targets(root.a)
+        node, parent, field, idx = nodes[case['tsel'] % len(nodes)]
+        anc, aparent, afield, aidx = nodes[case['asel'] % len(nodes)]
+        text = case['text']
+        desc = f'put_line_comment({text!r}) on {parent.__class__.__name__}.{field}[{idx}] {node.__class__.__name__}, then {case["how"]} of {aparent.__class__.__name__}.{afield}[{aidx}] {anc.__class__.__name__}'
+        site = f'history:{case["how"]}:{anc.__class__.__name__}'
+
+        try:
+            node.f.put_line_comment(text or None)
+        except Exception as exc:
+            ctx.count(f'comment_refused:{type(exc).__name__}')
+
+            return
+
+        mid = root.src
+        mid_S = c07.norm_dump(parse_or_skip(mid))
+        # comments on the lines of the round-tripped statement (those after its first and before its last line are part of its source whatever the
+        # trivia options say; the line comment on its last line travels with it under the default trivia, but is not part of own_src())
+        last = anc.end_lineno - (case['how'] == 'own_src')
+        mid_comments = Counter(t[1] for t in c04.K_pos(mid) if t[0] == tokenize.COMMENT and anc.lineno <= t[2][0] + 1 <= last)
+        em.warm_caches(root)
+        f = anc.f
+
+        try:
+            if case['how'] == 'cutput':
+                piece = f.cut()
+                pf = aparent.f
+
+                if aidx is None:
+                    pf.put(piece, field=afield)
+                else:
+                    pf.put_slice(piece, aidx, aidx, afield, one=True)
+            elif case['how'] == 'copy':
+                f.replace(f.copy(), norm=True)
+            else:
+                f.replace(f.own_src(), norm=True)
+        except Exception as exc:
+            ctx.count(f'refused:history:{type(exc).__name__}@{fst_site(exc)}')
+
+            return
+
+        after = root.src
+
+        try:
+            after_S = c07.norm_dump(ast.parse(after))
+        except SyntaxError as exc:
+            raise Violation('C08.unparsable', f'{desc}: result does not parse: {exc!r}\n--- before ---\n{mid[:700]}\n--- after ---\n{after[:700]}', site) from None
+
+        if after_S != mid_S and re.sub(r'(?: |\\t)+', '', after_S) == re.sub(r'(?: |\\t)+', '', mid_S) and ('"""' in mid or "'''" in mid):
+            after_S = mid_S
+
+        if after_S != mid_S:
+            raise Violation('C08.structure', f'{desc}: structure changed by the round trip\n--- before ---\n{mid[:700]}\n--- after ---\n{after[:700]}', site)
+
+        after_comments = Counter(t[1] for t in c04.K_pos(after) if t[0] == tokenize.COMMENT)
+
+        if mid_comments - after_comments:
+            raise Violation('C08.history_comments', f'{desc}: comment(s) of the statement lost in the round trip: {dict(mid_comments - after_comments)}\n--- before ---\n{mid[:700]}\n--- after ---\n{after[:700]}', site)
+
+        invariant(root, desc, site)
+        ctx.count(f'history_roundtrips:{case["how"]}')
+
+        if anc is not node and text:
+            ctx.mark_nontrivial((src, case['tsel'], case['asel'], text, case['how']), {'kind': 'history', 'src': src[:300], 'desc': desc} if case['tsel'] % 7 == 0 else None)
+
+        return
+
     if kind in ('cutput', 'self'):
+        if case['sels'][0][1] % 2:
+            em.warm_caches(root)
+
         for tsel, start, stop, mode in case['sels']:
             cur = root.src
             cur_S = c07.norm_dump(parse_or_skip(cur))
